@@ -52,6 +52,14 @@ template <class T> static void genfill(Rng& r, std::vector<T>& x) { u32 n; switc
 #include "gen_tins.inc"
 #undef VF_GEN_STRUCT_DEFS
 
+// ---- arguments with an invariant between their members: generated member-wise, then made consistent -------------------
+template <class T> static void fixup(Rng&, T&) {}
+static void fixup(Rng& r, Dot11ManagementFrame::country_params& x) {      // three parallel lists of one length, a 3-character country string (the setter refuses anything else)
+    size_t n = r.chance(1, 6) ? 0 : 1 + r.below(8); x.first_channel.resize(n); x.number_channels.resize(n); x.max_transmit_power.resize(n);
+    for (size_t i = 0; i < n; ++i) { x.first_channel[i] = (u8)r.edgy(8); x.number_channels[i] = (u8)r.edgy(8); x.max_transmit_power[i] = (u8)r.edgy(8); }
+    x.country = std::string(1, (char)('A' + r.below(26))) + (char)('A' + r.below(26)) + (r.chance(1, 2) ? ' ' : 'I');
+}
+
 // ---- per field operations ------------------------------------------------------------------------------------------
 struct FieldOps { std::string key, cls, owner, fname; bool scalar_kind; std::function<std::string(PDU&, Rng&)> set_random; std::function<std::string(const PDU&)> get; };
 static std::vector<FieldOps> g_fields;
@@ -80,7 +88,7 @@ template <class Q, class A> struct Reg {
                 size_t n = fixed_array_len(key); if (!n) { g_unfillable = true; return std::string(); }
                 static uint8_t buf[512]; u32 m = r.below(4); for (size_t i = 0; i < sizeof buf; ++i) buf[i] = m == 0 ? 0 : m == 1 ? 0xff : r.byte(); v = buf;
                 set(static_cast<Q&>(o), v); return "arr:" + hex(buf, n, 4096); }
-            else { g_unfillable = std::is_pointer<A>::value; if (!g_unfillable) genfill(r, v); if (g_unfillable) return std::string(); std::string t = txt(v); set(static_cast<Q&>(o), v); return t; } };
+            else { g_unfillable = std::is_pointer<A>::value; if (!g_unfillable) { genfill(r, v); fixup(r, v); } if (g_unfillable) return std::string(); std::string t = txt(v); set(static_cast<Q&>(o), v); return t; } };
         f.get = [get, key](const PDU& o) { std::string s; put_named(s, key.c_str(), get(static_cast<const Q&>(o))); return s; };
         g_fields.push_back(f);
     }
